@@ -1,6 +1,7 @@
 package sim
 
 import (
+	"fmt"
 	"sync"
 
 	"github.com/google/uuid"
@@ -8,25 +9,41 @@ import (
 	"github.com/zitadel/saml/pkg/provider"
 )
 
-func realIDStage(total, workers int) (n, dups, illegal int, sample []string) {
+// realIDStage draws `total` message IDs from `workers` goroutines with the library's real randomness source.
+func realIDStage(total, workers int) (n, dups, illegal, panics int, sample []string, panicSample string) {
 	uuid.SetRand(nil)
 	per := total / workers
 	outs := make([][]string, workers)
+	pan := make([]string, workers)
 	var wg sync.WaitGroup
 	for i := 0; i < workers; i++ {
 		wg.Add(1)
 		go func(i int) {
 			defer wg.Done()
 			ids := make([]string, 0, per)
+			defer func() { outs[i] = ids }()
 			for k := 0; k < per; k++ {
-				ids = append(ids, provider.NewID())
+				func() {
+					defer func() {
+						if r := recover(); r != nil && pan[i] == "" {
+							pan[i] = fmt.Sprint(r)
+						}
+					}()
+					ids = append(ids, provider.NewID())
+				}()
+				if pan[i] != "" {
+					return
+				}
 			}
-			outs[i] = ids
 		}(i)
 	}
 	wg.Wait()
 	seen := make(map[string]struct{}, total)
-	for _, ids := range outs {
+	for i, ids := range outs {
+		if pan[i] != "" {
+			panics++
+			panicSample = pan[i]
+		}
 		for _, id := range ids {
 			n++
 			if _, ok := seen[id]; ok {
